@@ -262,6 +262,37 @@ def run(tier):
             add(DT(None, [], "x", _generated=t0), DT(None, [], "x", _generated=t1), ign, {"pair": "same-instant-other-offset:_generated", "offset_h": off, "ign": sorted(ign)})
             add(HT(DT(t0, [], "x", _generated=gen.GEN), "x", _generated=gen.GEN), HT(DT(t1, [], "x", _generated=gen.GEN), "x", _generated=gen.GEN), ign, {"pair": "same-instant-other-offset:nested", "offset_h": off, "ign": sorted(ign)})
             add(GroupedRecord("g/i", [DT(t0, [], "x", _generated=gen.GEN)]), GroupedRecord("g/i", [DT(t1, [], "x", _generated=gen.GEN)]), ign, {"pair": "same-instant-other-offset:grouped", "offset_h": off, "ign": sorted(ign)})
+    # descriptors made with extend() AFTER the base descriptor was used (hashed, compared, packed): an extension is a
+    # descriptor of its own
+    Bx = RecordDescriptor("t/base", [("string", "f"), ("string", "g")])
+    b0 = Bx("v", "x", _generated=gen.GEN)
+    hash(b0), b0 == b0, b0._pack(), Bx.descriptor_hash
+    E1, E2, E3 = Bx.extend([("string", "owner")]), Bx.extend([("varint", "owner")]), Bx.extend([("string", "other")])
+    for ign in (set(), {"owner"}, {"owner", "other"}):
+        add(E1("v", "x", None, _generated=gen.GEN), E2("v", "x", None, _generated=gen.GEN), ign, {"pair": "extended-descriptors-differ-in-added-type", "ign": sorted(ign)})
+        add(E1("v", "x", None, _generated=gen.GEN), E3("v", "x", None, _generated=gen.GEN), ign, {"pair": "extended-descriptors-differ-in-added-name", "ign": sorted(ign)})
+        add(Bx("v", "x", _generated=gen.GEN), E1("v", "x", None, _generated=gen.GEN), ign, {"pair": "base-vs-extended", "ign": sorted(ign)})
+        add(E1("v", "x", "o", _generated=gen.GEN), Bx.extend([("string", "owner")])("v", "x", "o", _generated=gen.GEN), ign, {"pair": "same-extension-made-twice", "ign": sorted(ign)})
+    # a dictionary field whose keys cannot be ordered among themselves (msgpack allows them): the record is hashable all the same
+    DLd = RecordDescriptor("t/dl", [("dictlist", "f"), ("string", "g")])
+    for dv in ([{1: "a", "b": 2}], [{None: 1, "x": 2}], [{"k": {2: 1, "z": 0}}], [{"a": 1, "b": [1, {3: 4, "c": 5}]}]):
+        add(DLd(copy.deepcopy(dv), "x", _generated=gen.GEN), DLd(copy.deepcopy(dv), "x", _generated=gen.GEN), set(), {"pair": "dictlist-unorderable-keys", "type": "dictlist", "value": repr(dv)[:40]})
+    # a record compared with something that is NOT a record (its own field values, its descriptor, its class, plain objects):
+    # unequal, both ways round, without an error
+    FD = RecordDescriptor("t/foreign", [("string", "s"), ("path", "p"), ("digest", "d"), ("string[]", "l"), ("net.ipaddress", "ip"), ("varint", "n"), ("datetime", "ts")])
+    fr = FD("text", "/a/b", ("d41d8cd98f00b204e9800998ecf8427e", None, None), ["a"], "1.2.3.4", 5, gen.GEN, _generated=gen.GEN)
+    others = [("own-" + n, getattr(fr, n)) for n in ("s", "p", "d", "l", "ip", "n", "ts")] + [("descriptor", FD), ("class", FD.recordType), ("none", None), ("text", "text"), ("int", 5),
+                                                                                               ("tuple", fr._pack()), ("object", object()), ("grouped-of-itself", GroupedRecord("g/f", [fr]))]
+    for label, other in others:
+        c = {"kind": "foreign", "raised": False, "exc": "none", "eq_ab": True, "eq_ba": True, "ne_ab": False}
+        try:
+            c["eq_ab"], c["eq_ba"], c["ne_ab"] = bool(fr == other), bool(other == fr), bool(fr != other)
+            [fr].index(fr), (other in [fr]), (fr in [other, fr])
+        except Exception as e:
+            c["raised"], c["exc"] = True, type(e).__name__ + ":" + str(e)[:80]
+        traces.append(c)
+        metas.append({"pair": "record-vs-" + label, "type": "foreign"})
+        ctx.case(json.dumps(metas[-1]))
     # a record that was already packed / hashed / compared, whose typed LIST field is then changed IN PLACE: equality and
     # hash follow the current contents
     for T, v1, v2 in (("string", "a", "b"), ("varint", 1, 2), ("path", "/a", "/b"), ("uint16", 1, 2)):
